@@ -479,6 +479,61 @@ def positional_case(rng, cid):
     return Case(cid, lines + out)
 
 
+def onechar_long_case(rng, cid):
+    """a long key of ONE character (definable by the specification `--c` only) beside the short key of the same
+    character, as two arguments, in both definition orders; alone; and the short key alone.  `--c` reaches the argument
+    with the long key c and never the one with the short key c, `-c` the other way round (C05's "an exact key selects
+    its own argument", seen through the handler: the pinned code looked `--c` up as the short key — fix for the former
+    finding one-char-long-key).  With abbreviations `--c` still is an exact key first and an abbreviation second."""
+    c, s2 = rng.sample(G.SHORTS, 2)
+    variant = rng.choice(["both", "both", "both-swapped", "long-only", "short-only"])
+    abbr = rng.randint(0, 1)
+    # a second long key; in the variants with the one-character long key it may start with the same character
+    # (exact match wins over the abbreviation), in `short-only` it must not (else `--c` is its abbreviation)
+    pool = [l for l in G.LONGS if variant != "short-only" or not l.startswith(c)]
+    l2 = rng.choice(pool + ([c + "ore", c + "x"] if variant != "short-only" else []))
+    lk = rng.choice(["int", "str"])
+    defs = {"L": "pa arg key=--%s kind=%s" % (c, lk), "S": "pa arg key=%s kind=flag" % rng.choice([c, "-" + c]),
+            "O": "pa arg key=%s,%s kind=int" % (s2, l2)}
+    order = {"both": "LSO", "both-swapped": "SOL", "long-only": "OL", "short-only": "SO"}[variant]
+    if rng.random() < 0.3:
+        order = "".join(rng.sample(order, len(order)))
+    lines = ["pa cfg begin abbr=%d" % abbr] + [defs[x] for x in order] + ["pa cfg end"]
+    lv = str(rng.randint(2, 99)) if lk == "int" else rng.choice(["abc", "x", "Peter", "7"])
+    n = rng.randint(1, 50)
+    out = []
+
+    def add(label, exp, ws):
+        out.append("pa eval x-lbl=%s x-exp=%s -- %s" % (label, G.hx(exp), words_hex(ws)))
+
+    def ok(L=None, S=0, O=0):
+        parts = []
+        for i, x in enumerate(order):
+            if x == "L":
+                parts.append(("%d:i=%s" % (i, L or "0")) if lk == "int" else ("%d:s=%s" % (i, G.hx(L) if L else "-")))
+            elif x == "S":
+                parts.append("%d:f=%d" % (i, S))
+            else:
+                parts.append("%d:i=%d" % (i, O))
+        return "ok " + " ".join(parts)
+    hasL, hasS = "L" in order, "S" in order
+    other = rng.choice(["-" + s2, "--" + l2])
+    add("long1-value", ok(L=lv) if hasL else "throw", ["--" + c, lv])
+    add("long1-eq", ok(L=lv) if hasL else "throw", ["--%s=%s" % (c, lv)])
+    add("long1-no-value", "throw", ["--" + c] + ([other, str(n)] if rng.random() < 0.5 else []))
+    add("short-flag", ok(S=1) if hasS else "throw", ["-" + c])
+    add("short-then-long1", ok(L=lv, S=1) if hasL and hasS else "throw", ["-" + c, "--" + c, lv])
+    add("long1-then-short", ok(L=lv, S=1) if hasL and hasS else "throw", ["--" + c, lv, "-" + c])
+    add("long1-other-short", ok(L=lv, S=1, O=n) if hasL and hasS else "throw", ["--" + c, lv, other, str(n), "-" + c])
+    add("other-only", ok(O=n), [other, str(n)])
+    # the short flag takes no value: `-c value` leaves a bare word without positional argument
+    add("short-with-word", "throw", ["-" + c, lv])
+    # three dashes: the name `-c` is the specification of the short key
+    add("three-dashes", ok(S=1) if hasS else "throw", ["---" + c])
+    rng.shuffle(out)
+    return Case(cid, lines + out)
+
+
 def value_constraint_case(rng, cid):
     """differ over three int arguments and disjoint over two list arguments, the constraint written through different
     key spellings; equal values in every pair (also equal only after conversion: 7 / +7 / 07), values given twice (the
@@ -704,7 +759,10 @@ BATCHES = {
 
 
 EXH_VOCAB = ["-a", "-b", "-ab", "-ba", "-a5", "-ba5", "--alpha", "--al", "--alpha=5", "--al=", "--beta", "-m", "--multi=1,2",
-             "5", "x", "7,8", "--", "-", "!", "(", "--nokey", "-v", "-vv", "--verbose"]
+             "5", "x", "7,8", "--", "-", "!", "(", "--nokey", "-v", "-vv", "--verbose",
+             # one-character names behind two dashes: long keys (abbreviations of alpha / beta when allowed), never the
+             # short keys a / b
+             "--a", "--b"]
 # C01-C03 only: forms of the declarative grammar SpellsPlus beyond Spells (C02_parse_faithful) — a dash inside a group
 # of short keys (= separator / long name), a flag with '=value', an optional value behind `-v-`
 EXH_VOCAB_PLUS = ["-b-", "-b-a", "-v--al", "--beta=x"]
@@ -935,6 +993,10 @@ _generate_before_glist = generate
 def generate(prop, tier, seed, scale=1):
     for label, cases in _generate_before_glist(prop, tier, seed, scale):
         yield label, cases
+    if prop in ("C01", "C02", "C03"):
+        rng = random.Random("%s-long1-%s" % (prop, seed))
+        n = (25 if tier == "quick" else 1500) * scale
+        yield "generated", [onechar_long_case(rng, "long1-%d" % k) for k in range(n)]
     if prop == "C08":
         rng = random.Random("C08-glist-%s" % seed)
         n = (40 if tier == "quick" else 3000) * scale
